@@ -79,6 +79,37 @@ def run(ck, P):
     fc = list(P.calls_to({"fclose"}))
     ck.ob("C20.1-WHO-CLOSES", "Lib:fclose sites", all(e.fn.raw.get("ctor") for e in fc), "fclose only in the logging destructor: %s" % [e.fn.name for e in fc], nontrivial=False)
 
+    # a refused registration leaves no trace: the source created for it must not close a descriptor the user passed in
+    rms = P.fn("register_mod_src")
+    ck.analysed(rms)
+    ins_ = [e for e in rms.events() if e.kind == "decl" and e.rhs is not None and strip(e.rhs).get("callee") == "m_bst_insert"]
+    ck.need(len(ins_) == 1, "register_mod_src insertion changed shape")
+    rvn = ins_[0].e["name"]
+    srcn = S(strip(ins_[0].rhs)["args"][1])
+    ck.need("M_SRC_DUP" in E, "M_SRC_DUP vanished")
+    badr = None
+    nr = 0
+    for path in rms.paths():
+        evs = list(rules.path_events(rms, path))
+        if ins_[0] not in evs:
+            continue
+        a = rules.path_assumes_after(path, ins_[0])
+        if not (a.get(rvn) is True or a.get("(%s == 0)" % rvn) is False):
+            continue
+        rel = [e for e in evs if e.kind == "call" and e.callee in ("m_mem_unref", "m_mem_unrefp") and S(e.args[0]).lstrip("&") == srcn]
+        if not rel:
+            continue
+        nr += 1
+        clr = [e for e in evs if e.kind == "assign" and S(e.lhs) == "%s->flags" % srcn and e.e["op"] == "&=" and cval(e.rhs) is not None
+               and (cval(e.rhs) & AC) == 0 and evs.index(e) < evs.index(rel[0])]
+        owned = a.get("(flags & %d)" % E["M_SRC_DUP"])
+        if owned is not True and not clr:
+            badr = path
+    ck.ob("C20.1-WHO-CLOSES", rms.site("refused registration keeps the user's descriptor open"), badr is None and nr > 0,
+          "%d refusing path(s): M_SRC_FD_AUTOCLOSE is cleared before the rejected source is released unless the descriptor is the library's own duplicate" % nr
+          if badr is None else "a refused registration (-EEXIST) releases its source with M_SRC_FD_AUTOCLOSE still set: the destructor closes the user's "
+          "descriptor, which the existing registration still polls", path=rules.fmt_path(rms, badr) if badr else None)
+
     # ------------------------------------------------------------------ 2. who opens, and the closing counterpart
     ck.rule("C20.2-WHO-OPENS", "pairing table: epoll_create1 only in poll_create (closed by poll_destroy from ctx_dtor); pipe only in _pipe (read end: "
             "AUTOCLOSE PS source, write end: reset_module); timerfd/signalfd/inotify/pidfd/eventfd only in the create_* helpers, reached only "
